@@ -6,6 +6,7 @@ Property theorems over Model/Rests.lean (the live `fill_rests`, both modes, with
 Helper lemmas are in Proofs/C11Rests.lean.
 -/
 import PartituraModel.Proofs.C11Rests
+import PartituraModel.Proofs.C11RestsX
 
 namespace C11
 open Model Model.Dur Model.Meas Model.Rests Gen
@@ -148,6 +149,55 @@ example : fillRestsG [(0, 4)] [(1, 1), (2, 2)] [(0, 16), (16, 32)] [⟨4, 8, 1, 
           ⟨4, 8, 1, 1, none⟩, ⟨8, 16, 1, 1, some (.single ("half", 0, none, none))⟩,
           ⟨16, 20, 2, 2, some (.single ("quarter", 0, none, none))⟩, ⟨16, 32, 1, 1, some (.single ("whole", 0, none, none))⟩,
           ⟨20, 32, 2, 2, none⟩] := by decide +kernel
+
+/-! ### the whole part (round 5) -/
+
+/-- **fill_rests_decomposes**: over pairwise disjoint, non-empty measures (integer times, divisions up to 2⁴⁰) the fold of
+    `fill_rests` adds, for every measure, exactly the rests `_fill_rests_within_measure` computes from the ORIGINAL
+    objects of the part: the rests added for one measure start and end inside it, so the window of another measure never
+    sees them.  Afterwards the part holds the old objects and those rests, nothing else. -/
+theorem fill_rests_decomposes (qd : List (Int × Nat)) (hbig : ∀ e ∈ qd, e.2 ≤ 1099511627776) (nstaves : Nat)
+    (ns out : List GNote) (ms : List (Nat × Nat)) (hsep : C11RestsX.Sep ms) (hne : ∀ m ∈ ms, m.1 < m.2)
+    (hwin : C11RestsX.WindowsOK ms ns) (h : fillRests qd nstaves (C11RestsX.castM ms) ns = some out) :
+    (∀ m ∈ ms, ∃ rests, measureRests qd nstaves ns (m.1 : Rat) (m.2 : Rat) = some rests ∧
+        ∀ r ∈ rests, (m.1 : Rat) ≤ r.start ∧ r.start < r.stop ∧ r.stop ≤ (m.2 : Rat)) ∧
+    ∀ x, x ∈ out ↔ x ∈ ns ∨ ∃ m ∈ ms, ∃ rests, measureRests qd nstaves ns (m.1 : Rat) (m.2 : Rat) = some rests ∧ x ∈ rests := by
+  have hb := C11Rests.divsAt_le qd _ (by norm_num) hbig
+  obtain ⟨j1, j2⟩ := C11RestsX.fillRests_decomposes qd hb nstaves ns ms ns out hsep hne hwin (fun _ _ => rfl) h
+  refine ⟨?_, j2⟩
+  intro m hm
+  obtain ⟨rests, hr⟩ := j1 m hm
+  have hw := hwin m hm
+  exact ⟨rests, hr, C11RestsX.measureRests_inside qd hb nstaves ns m.1 m.2 (hne m hm) (fun n hn => (hw n hn).1)
+    (fun n hn => (hw n hn).2) rests hr⟩
+
+/-- **rests_fill_gaps_all**: `rests_fill_gaps` for the part AFTER `fill_rests(part)` — over pairwise disjoint non-empty
+    measures, for every measure and every voice that has something starting in it, the rests that were ADDED in that
+    voice cover a time of the measure iff no object of the voice that starts in the measure covers it -/
+theorem rests_fill_gaps_all (qd : List (Int × Nat)) (hbig : ∀ e ∈ qd, e.2 ≤ 1099511627776) (nstaves : Nat)
+    (ns out : List GNote) (ms : List (Nat × Nat)) (hsep : C11RestsX.Sep ms) (hne : ∀ m ∈ ms, m.1 < m.2)
+    (hwin : C11RestsX.WindowsOK ms ns) (hold : ∀ n ∈ ns, n.added = none)
+    (h : fillRests qd nstaves (C11RestsX.castM ms) ns = some out)
+    (m : Nat × Nat) (hm : m ∈ ms) (v : Int) (hv : ∃ n ∈ window (m.1 : Rat) (m.2 : Rat) ns, n.voice = v)
+    (t : Rat) (hS : (m.1 : Rat) ≤ t) (hE : t < (m.2 : Rat)) :
+    (∃ r ∈ out, r.added.isSome = true ∧ r.voice = v ∧ r.start ≤ t ∧ t < r.stop) ↔
+      ∀ n ∈ window (m.1 : Rat) (m.2 : Rat) ns, n.voice = v → ¬ (n.start ≤ t ∧ t < n.stop) :=
+  C11RestsX.fill_gaps_all qd (C11Rests.divsAt_le qd _ (by norm_num) hbig) nstaves ns out ms hsep hne hwin hold h m hm v hv
+    t hS hE
+
+-- non-vacuity: the two measures [0, 4), [4, 8) of the example above
+example : C11RestsX.Sep [(0, 4), (4, 8)] ∧ (∀ m ∈ [((0 : Nat), (4 : Nat)), (4, 8)], m.1 < m.2) := by
+  constructor
+  · unfold C11RestsX.Sep; decide
+  · decide
+example : C11RestsX.WindowsOK [(0, 4), (4, 8)] [⟨4, 8, 1, 1, none⟩] := by
+  intro m _ n hn
+  have hmem : n ∈ [(⟨4, 8, 1, 1, none⟩ : GNote)] := (List.mem_filter.mp hn).1
+  simp only [List.mem_singleton] at hmem
+  subst hmem
+  exact ⟨⟨⟨4, by norm_num⟩, ⟨8, by norm_num⟩⟩, by norm_num⟩
+example : C11RestsX.castM [(0, 4), (4, 8)] = [(0, 4), (4, 8)] := by
+  simp [C11RestsX.castM]
 
 -- the stretches of rest_stretches_exact on overlapping objects and a grace note: [0,2) [1,3) | 5 | [6,8) in [0, 10)
 example : C11Rests.voiceSpans 0 10 [⟨0, 2, 1, 1, none⟩, ⟨6, 8, 1, 1, none⟩, ⟨1, 3, 1, 1, none⟩, ⟨5, 5, 1, 1, none⟩] =
